@@ -46,6 +46,16 @@ func main() {
 		opLess3(r, *n, *tier)
 	case "scan":
 		opScan(r, *n, *tier, *mix)
+	case "scanseq":
+		opScanSeq(r, *n, *tier)
+	case "cut":
+		opCut(r, *n, *tier)
+	case "names":
+		opNames(r, *n, *tier)
+	case "chunk":
+		opChunk(r, *n, *tier)
+	case "witness":
+		opWitness(*mix)
 	case "replay":
 		opReplay()
 	default:
